@@ -305,7 +305,7 @@ impl<T: Tier> Cfg<T> for M4C {
     const NAME: &'static str = "Matrix4";
     const DIM: usize = 3;
     const DECOMPOSED: bool = false;
-    fn gens(_float: bool) -> Vec<Self::Tr> {
+    fn gens(float: bool) -> Vec<Self::Tr> {
         let rot: Matrix4<T> = Matrix4::from(mk_q(rot_gens_q::<T>()[1]));
         let d = disps::<T>();
         let mut shear = Matrix4::<T>::identity();
@@ -317,13 +317,18 @@ impl<T: Tier> Cfg<T> for M4C {
         proj.z.w = T::q(1, 4);
         proj.x.w = T::q(-1, 8);
         proj.w.w = T::int(2);
-        vec![
+        let mut g = vec![
             Matrix4::from_translation(mk_v3(d[0])) * rot * Matrix4::from_scale(T::q(-3, 2)),
             shear,
             Matrix4::from_translation(mk_v3(d[2])) * Matrix4::from_nonuniform_scale(T::int(2), T::int(-1), T::q(1, 2)),
             sing,
             proj,
-        ]
+        ];
+        if float {
+            // determinant 2^-60: far below machine epsilon, not zero (pointless in the exact tier)
+            g.push(Matrix4::from_scale(T::q(1, 1 << 20)));
+        }
+        g
     }
     fn comps(t: &Self::Tr) -> Vec<T> {
         flat_m(m4(*t))
@@ -370,14 +375,18 @@ impl<T: Tier> Cfg<T> for M3P3 {
     const NAME: &'static str = "Matrix3<Point3>";
     const DIM: usize = 3;
     const DECOMPOSED: bool = false;
-    fn gens(_float: bool) -> Vec<Self::Tr> {
+    fn gens(float: bool) -> Vec<Self::Tr> {
         let rot: Matrix3<T> = Matrix3::from(mk_q(rot_gens_q::<T>()[2]));
         let mut shear = Matrix3::<T>::identity();
         shear.z.x = T::q(3, 2);
         let g: Matrix3<T> = mk_m3(mat_from_r::<T, 3>(&alphabet::generic(9, 1)));
         let mut sing = g;
         sing.z = sing.x + sing.x;
-        vec![rot * T::q(-3, 2), shear, Matrix3::from_diagonal(mk_v3([T::int(2), T::int(-1), T::q(1, 2)])), sing]
+        let mut g = vec![rot * T::q(-3, 2), shear, Matrix3::from_diagonal(mk_v3([T::int(2), T::int(-1), T::q(1, 2)])), sing];
+        if float {
+            g.push(Matrix3::from_value(T::q(1, 1 << 20)));
+        }
+        g
     }
     fn comps(t: &Self::Tr) -> Vec<T> {
         flat_m(m3(*t))
@@ -423,16 +432,20 @@ impl<T: Tier> Cfg<T> for M3P2 {
     const NAME: &'static str = "Matrix3<Point2>";
     const DIM: usize = 2;
     const DECOMPOSED: bool = false;
-    fn gens(_float: bool) -> Vec<Self::Tr> {
+    fn gens(float: bool) -> Vec<Self::Tr> {
         let d = disps::<T>();
         // affine 2-D maps (third row 0 0 1), so that the homogeneous divide is trivial
         let lin = |a: [[T; 2]; 2], t: [T; 2]| -> Matrix3<T> { Matrix3::from_translation(mk_v2(t)) * Matrix3::from(mk_m2(a)) };
-        vec![
+        let mut g = vec![
             lin([[T::q(3, 5), T::q(4, 5)], [T::q(-4, 5), T::q(3, 5)]], [d[0][0], d[0][1]]) * Matrix3::from_scale(T::q(-3, 2)),
             lin([[T::one(), T::zero()], [T::q(3, 2), T::one()]], [T::zero(), T::zero()]),
             lin([[T::int(2), T::zero()], [T::zero(), T::q(-1, 2)]], [d[2][0], d[2][1]]),
             lin([[T::int(2), T::int(1)], [T::int(4), T::int(2)]], [d[1][0], d[1][1]]),
-        ]
+        ];
+        if float {
+            g.push(lin([[T::q(1, 1 << 30), T::zero()], [T::zero(), T::q(1, 1 << 30)]], [d[0][0], d[0][1]]));
+        }
+        g
     }
     fn comps(t: &Self::Tr) -> Vec<T> {
         flat_m(m3(*t))
@@ -560,13 +573,8 @@ fn invariant<T: Tier, C: Cfg<T>>(ctx: &mut Ctx, s: &C::Tr, gens: &[C::Tr]) {
         ctx.check(C::inv_tv(s, ps[0]).is_none(), &key(&format!("{}/inverse_vector/none-when-degenerate", C::NAME)), || "inverse_transform_vector() is Some".to_string());
         return;
     }
-    if !T::EXACT && !C::DECOMPOSED {
-        // float matrices: invertibility is what the float determinant says (C02 decides the exact dichotomy)
-        if inv.is_none() {
-            ctx.branch("float-singular");
-            return;
-        }
-    }
+    // (float matrices: `deg` is what determinant() itself reports, so a non-degenerate matrix - however
+    // small its determinant - must have an inverse; the exact zero/non-zero dichotomy is C02's)
     ctx.branch("invertible");
     let inv = match inv {
         Some(i) => i,
